@@ -16,6 +16,10 @@
 //     public dispatch_block_perform (stamps only: its record lives on the library's stack);
 //   3 lost-cancel: a timed wait on a block that cannot complete yet times out while a cancel lands inside it;
 //     then testcancel, then the block is submitted (must not run its body, must complete for waiter and notifier).
+//   5 dispose: the LAST reference of the block object is released (Block_release -> destructor of the private data,
+//     src/block.cpp) after observers have registered notifications / waited with a timeout / cancelled: either the
+//     object was never executed (the destructor leaves the group: the notifications are submitted although nothing
+//     completed) or it was executed once (the destructor leaves nothing).  Every other round leaks its object.
 //   4 slot: the dbpd_queue slot is already occupied when the same object is submitted again (async and sync: the
 //     cmpxchg fails and the references are given back) and is emptied by another invocation before a held
 //     dispatch_sync invocation finishes (its xchg finds NULL).
@@ -31,7 +35,7 @@
 #include "dv_record.h"
 
 enum { OP_DIRECT = 1, OP_SYNC = 2, OP_ASYNC = 3, OP_CANCEL = 5, OP_TESTCANCEL = 6, OP_WAIT = 7, OP_NOTIFY = 8,
-	OP_PERFORM_PUBLIC = 9 };
+	OP_PERFORM_PUBLIC = 9, OP_RELEASE = 10 };
 enum { S_ASYNC_GLOBAL, S_ASYNC_SERIAL, S_ASYNC_SUSPENDED, S_BARRIER_ASYNC, S_GROUP_ASYNC, S_GROUP_ASYNC_SUSPENDED,
 	S_SYNC, S_SYNC_SUSPENDED, S_DIRECT, S_NEVER, S_COUNT };
 
@@ -54,6 +58,13 @@ static void ht_track(const volatile void *base, size_t len, int obj) {
 		ht[h].obj = obj; ht[h].off = (long)o; atomic_store_explicit(&ht[h].key, p, memory_order_release);
 	}
 }
+static void ht_untrack(const volatile void *base, size_t len) {
+	for (size_t o = 0; o < len; o += 4) {
+		uintptr_t p = (uintptr_t)base + o; unsigned h = ht_hash(p);
+		while (atomic_load(&ht[h].key) && atomic_load(&ht[h].key) != p) h = (h + 1) & (HT_SZ - 1);
+		if (atomic_load(&ht[h].key) == p) ht[h].obj = -1;      // the memory is free: whatever reuses it is not recorded
+	}
+}
 static void c19_cb(const volatile void *addr, unsigned size, int kind, int order, unsigned long long a, unsigned long long b,
 		int ok, const char *file, int line) {
 	(void)file;
@@ -63,7 +74,7 @@ static void c19_cb(const volatile void *addr, unsigned size, int kind, int order
 	for (;;) {
 		uintptr_t k = atomic_load_explicit(&ht[h].key, memory_order_acquire);
 		if (!k) break;
-		if (k == p) { dv_push(t, kind, order, ht[h].obj, ht[h].off, (int)size, a, b, ok, line); break; }
+		if (k == p) { if (ht[h].obj >= 0) dv_push(t, kind, order, ht[h].obj, ht[h].off, (int)size, a, b, ok, line); break; }
 		h = (h + 1) & (HT_SZ - 1);
 	}
 	if (dv_permille) {
@@ -86,6 +97,7 @@ struct round_s {
 	_Atomic int notif_runs[MAXNOT]; _Atomic int wait_zero, wait_nonzero, wait_early, tc_zero_after_cancel;
 	_Atomic uint64_t cancel_ret_seq;    // 0 = no cancel has returned yet (stamp + 1 otherwise)
 	pthread_mutex_t wmu; helper_t h[MAXH]; uint64_t rng;
+	int released; unsigned sv_flags; int sv_perf, sv_queue;      // kind 5: the words just before the last release
 };
 static inline uint64_t xr(uint64_t *s) { uint64_t x = *s; x ^= x << 13; x ^= x >> 7; x ^= x << 17; return *s = x; }
 static uint64_t now_stamp(void) { return atomic_load(&dv_seq); }
@@ -181,7 +193,7 @@ static int wait_zero(_Atomic int *v, int ms) {
 	for (int i = 0; i < ms * 20; i++) { if (atomic_load(v) <= 0) return 1; usleep(50); }
 	return atomic_load(v) <= 0;
 }
-static int performed(round_t *r) { return *(volatile int *)&r->dbpd->dbpd_performed; }
+static int performed(round_t *r) { return r->released ? r->sv_perf : *(volatile int *)&r->dbpd->dbpd_performed; }
 static int wait_performed(round_t *r, int n, int ms) {
 	for (int i = 0; i < ms * 20; i++) { if (performed(r) >= n) return 1; usleep(50); }
 	return performed(r) >= n;
@@ -228,10 +240,10 @@ static void print_round(round_t *r, int completed_expected, int stuck) {
 			"expect_done=%d stuck=%d finalflags=%u finalqueue=%d nnotif=%d runs=", r->k, r->kind, r->subm, r->flags, r->hold,
 			atomic_load(&r->invocations), atomic_load(&r->body_runs), performed(r), atomic_load(&r->cancels),
 			atomic_load(&r->wait_zero), atomic_load(&r->wait_nonzero), atomic_load(&r->wait_early),
-			atomic_load(&r->tc_zero_after_cancel), completed_expected, stuck, r->dbpd->dbpd_atomic_flags,
-			r->dbpd->dbpd_queue != NULL, nn);
+			atomic_load(&r->tc_zero_after_cancel), completed_expected, stuck,
+			r->released ? r->sv_flags : r->dbpd->dbpd_atomic_flags, r->released ? r->sv_queue : (r->dbpd->dbpd_queue != NULL), nn);
 	for (int i = 0; i < nn; i++) printf("%d,", atomic_load(&r->notif_runs[i]));
-	printf("\n");
+	printf(" released=%d\n", r->released);
 }
 static int timed_arg(uint64_t *rng) { static const int T[] = { 100, 300, 1000, 3000, 8000, 20000 }; return T[xr(rng) % 6]; }
 
@@ -371,7 +383,7 @@ static void round_perform(round_t *r) {
 	dispatch_block_perform((dispatch_block_flags_t)r->flags, blk);
 	dv_user(DVU_RET, 2 * r->k, (unsigned long long)(atomic_load(&r->body_runs) - before), 0);
 	printf("R %d kind=2 subm=-2 flags=%lu hold=0 inv=%d body=%d performed=%d cancels=%d wz=0 wnz=0 wearly=0 tczero=0 "
-			"expect_done=0 stuck=0 finalflags=%u finalqueue=%d nnotif=0 runs=\n", r->k, r->flags, n, before, pd->dbpd_performed, preset_cancel,
+			"expect_done=0 stuck=0 finalflags=%u finalqueue=%d nnotif=0 runs= released=0\n", r->k, r->flags, n, before, pd->dbpd_performed, preset_cancel,
 			pd->dbpd_atomic_flags, pd->dbpd_queue != NULL);
 	printf("P %d public_perform_body_runs=%d group=%p\n", r->k, atomic_load(&r->body_runs) - before, (void *)pd->dbpd_group);
 }
@@ -408,6 +420,54 @@ static void round_lostcancel(round_t *r) {
 	for (int i = 0; i < 2000 && *(void *volatile *)&r->dbpd->dbpd_queue; i++) usleep(50);
 	usleep(200);
 	r->subm = S_NEVER + 100 + submitted_first;
+	print_round(r, 1, stuck);
+}
+
+// kind 5: the last reference is released
+static void round_dispose(round_t *r) {
+	uint64_t *g = &r->rng;
+	int run_first = (xr(g) % 3) == 0;        // executed once before the release (the destructor then leaves nothing)
+	r->subm = run_first ? -6 : -5; r->hold = 0;
+	r->q = dispatch_queue_create("c19.dispose", NULL); r->nq = (xr(g) & 1) ? dispatch_get_global_queue(0, 0) : dispatch_queue_create("c19.notify", NULL);
+	r->ug = dispatch_group_create();
+	make_block(r);
+	dispatch_group_t pg = r->dbpd->dbpd_group;
+	r->nhelpers = 1 + (int)(xr(g) % 3);
+	for (int i = 0; i < r->nhelpers; i++) { r->h[i].r = r; r->h[i].idx = i; r->h[i].rng = xr(g) | 1; }
+	int nops = 1 + (int)(xr(g) % 6);
+	for (int i = 0; i < nops; i++) {
+		int hi = (int)(xr(g) % (unsigned)r->nhelpers); unsigned c = (unsigned)(xr(g) % 10);
+		if (c < 2) add_op(r, hi, -1, OP_CANCEL, 0, 0);
+		else if (c < 4) add_op(r, hi, -1, OP_TESTCANCEL, 0, 0);
+		else if (c < 8) add_op(r, hi, -1, OP_NOTIFY, 0, 0);
+		else if (c < 9) add_op(r, hi, -1, OP_WAIT, 0, 0);
+		else add_op(r, hi, -1, OP_WAIT, timed_arg(g) % 3000 + 100, 1);
+	}
+	set_phase(r, 0);
+	for (int i = 0; i < r->nhelpers; i++) pthread_create(&r->h[i].th, NULL, multi_thr, &r->h[i]);
+	if (run_first) {
+		if (xr(g) & 1) do_direct(r);
+		else { do_async(r, r->q, (int)(xr(g) % 3)); }
+	}
+	for (int i = 0; i < r->nhelpers; i++) pthread_join(r->h[i].th, NULL);
+	int stuck = 0;
+	if (run_first) {
+		if (!wait_performed(r, 1, 3000)) stuck |= 4;
+		// the queue's reference on the block object is dropped after the invocation: wait for the worker to be done with it
+		for (int i = 0; i < 2000 && *(void *volatile *)&r->dbpd->dbpd_queue; i++) usleep(50);
+		dispatch_barrier_sync(r->q, ^{});
+		usleep(100);
+	}
+	// nobody else uses the object any more: drop the last reference
+	r->sv_flags = r->dbpd->dbpd_atomic_flags; r->sv_perf = r->dbpd->dbpd_performed; r->sv_queue = r->dbpd->dbpd_queue != NULL;
+	dv_user(DVU_CALL, 2 * r->k, OP_RELEASE, 0);
+	Block_release(r->db);
+	dv_user(DVU_RET, 2 * r->k, 0, 0);
+	ht_untrack(r->dbpd, sizeof(struct dispatch_block_private_data_s)); ht_untrack(&pg->dg_state, 8);
+	r->released = 1;
+	int nn = atomic_load(&r->nnotif); if (nn > MAXNOT) nn = MAXNOT;
+	for (int i = 0; i < nn; i++) if (!wait_until(&r->notif_runs[i], 1, 3000)) stuck |= 16;
+	usleep(200);
 	print_round(r, 1, stuck);
 }
 
@@ -510,10 +570,10 @@ int main(int argc, char **argv) {
 		round_t *r = calloc(1, sizeof *r);
 		r->k = k; r->rng = xr(&g) | 1; sem_init(&r->gate, 0, 0); pthread_mutex_init(&r->wmu, NULL);
 		unsigned c = (unsigned)(xr(&g) % 20);
-		r->kind = c < 10 ? 0 : c < 13 ? 1 : c < 15 ? 2 : c < 19 ? 3 : 4;
+		r->kind = c < 9 ? 0 : c < 12 ? 1 : c < 14 ? 2 : c < 17 ? 3 : c < 18 ? 4 : 5;
 		atomic_store(&wd_kind, r->kind); atomic_store(&wd_round, k);
 		if (r->kind == 0) round_single(r); else if (r->kind == 1) round_multi(r); else if (r->kind == 2) round_perform(r);
-		else if (r->kind == 3) round_lostcancel(r); else round_slot(r);
+		else if (r->kind == 3) round_lostcancel(r); else if (r->kind == 4) round_slot(r); else round_dispose(r);
 		if (getenv("C19_TIMING")) { struct timespec ts; clock_gettime(CLOCK_MONOTONIC, &ts); fprintf(stderr, "T %d kind=%d subm=%d hold=%d %ld.%03ld\n", k, r->kind, r->subm, r->hold, (long)ts.tv_sec, ts.tv_nsec / 1000000); }
 		// rounds are leaked on purpose: late worker-thread accesses stay valid and addresses are never reused
 	}
